@@ -419,3 +419,55 @@ def _drop(st, keep_value):
                     else:
                         del blk[i]
                     return
+
+
+def unroll_literal_loops(func, max_items=6):
+    """Copy of func in which `for x in (A, B, ..): body` over a literal tuple / list of at most
+    max_items expressions (no break / continue / else, x a plain name not re-bound in the body) is
+    replaced by the bodies with x substituted: a loop over two attributes is the same program as
+    the two statements written out."""
+    f = _dc(func)
+
+    class Sub(ast.NodeTransformer):
+        def __init__(self, name, expr):
+            self.name, self.expr = name, expr
+
+        def visit_Name(self, n):
+            if n.id == self.name and isinstance(n.ctx, ast.Load):
+                new = _dc(self.expr)
+                return ast.copy_location(new, n)
+            return n
+
+    def rewrite(stmts):
+        out = []
+        for st in stmts:
+            for fld in ('body', 'orelse', 'finalbody'):
+                blk = getattr(st, fld, None)
+                if isinstance(blk, list) and blk and isinstance(blk[0], ast.stmt):
+                    setattr(st, fld, rewrite(blk))
+            if isinstance(st, ast.Try):
+                for h in st.handlers:
+                    h.body = rewrite(h.body)
+            if isinstance(st, ast.For) and isinstance(st.target, ast.Name) and isinstance(
+                    st.iter, (ast.Tuple, ast.List)) and 0 < len(st.iter.elts) <= max_items and \
+                    not st.orelse and not any(isinstance(x, (ast.Break, ast.Continue))
+                                              for b in st.body for x in ast.walk(b)) and \
+                    not any(isinstance(x, ast.Name) and x.id == st.target.id and
+                            isinstance(x.ctx, (ast.Store, ast.Del))
+                            for b in st.body for x in ast.walk(b)):
+                for e in st.iter.elts:
+                    for b in st.body:
+                        nb = Sub(st.target.id, e).visit(_dc(b))
+                        for x in ast.walk(nb):
+                            if hasattr(x, 'lineno'):
+                                x.lineno = st.lineno
+                                x.end_lineno = st.lineno
+                        out.append(nb)
+                continue
+            out.append(st)
+        return out
+    f.body = rewrite(f.body)
+    ast.fix_missing_locations(f)
+    set_parents(f)
+    f._parent = None
+    return f
